@@ -3,7 +3,7 @@ import random
 import hidrun, diffrun
 from diffrun import Cfg
 
-PROPS_VO = ['Props/C09.vo', 'Props/C01_lowerbool.vo']
+PROPS_VO = ['Props/C09.vo', 'Props/C01_lowerbool.vo', 'Props/C09_lowerings.vo']
 GEN_ITEMS = ['coq/Gen/GenTables.v']
 LEVEL = 'proof'
 TRUSTED = ['theorems cover the regenerated tables (arith_map, compare_map, halt_inversion) against the machine semantics for ALL operand values and word sizes, and the index-check arithmetic; '
